@@ -82,13 +82,21 @@ def compile_term(node, var_of, sort_of=None):
     return rec(node)
 
 
-def compile_pred(node, var_of, sort_of=None):
-    """AST (in Boolean position) -> Pred over occupied rows."""
+def compile_pred(node, var_of, sort_of=None, hook=None):
+    """AST (in Boolean position) -> Pred over occupied rows.
+
+    ``hook(node, rec)`` may translate a sub-expression outside the pointwise fragment (a call of another predicate whose
+    meaning is known, a comparison of concept-valued expressions) into a Pred; it returns None to decline.
+    """
 
     def term(n):
         return compile_term(n, var_of, sort_of)
 
     def rec(n):
+        if hook is not None:
+            h = hook(n, rec)
+            if h is not None:
+                return h
         if isinstance(n, ast.BoolOp):
             parts = [rec(v) for v in n.values]
             if isinstance(n.op, ast.And):
